@@ -7,7 +7,7 @@ use crate::id::NameId;
 use crate::output::Normalizer;
 use crate::xotdata::{Node, Xot};
 
-use super::fullname::FullnameSerializer;
+use super::fullname::{FullnameSerializer, NamespaceDeclarations};
 use super::html5elements::Html5Elements;
 use super::{Output, OutputToken, Pretty};
 
@@ -126,6 +126,21 @@ impl<'a, N: Normalizer> Html5Serializer<'a, N> {
         Ok(())
     }
 
+    // The declarations of an element that take effect in the output. A
+    // default namespace declaration that differs from the namespace of the
+    // element itself is not written (see the Prefix output), so it cannot be
+    // relied on by the content of the element either.
+    fn scoped_declarations(&self, node: Node, element_name: NameId) -> NamespaceDeclarations {
+        let element_namespace = self.xot.namespace_for_name(element_name);
+        self.xot
+            .namespace_declarations(node)
+            .into_iter()
+            .filter(|(prefix_id, namespace_id)| {
+                *prefix_id != self.xot.empty_prefix() || *namespace_id == element_namespace
+            })
+            .collect()
+    }
+
     pub(crate) fn render_output(
         &mut self,
         node: Node,
@@ -135,7 +150,7 @@ impl<'a, N: Normalizer> Html5Serializer<'a, N> {
         let r = match output {
             StartTagOpen(element) => {
                 self.fullname_serializer
-                    .push(self.xot.namespace_declarations(node));
+                    .push(self.scoped_declarations(node, element.name()));
                 let namespace_id = self.xot.namespace_for_name(element.name_id);
                 if self
                     .html5_elements
@@ -193,7 +208,7 @@ impl<'a, N: Normalizer> Html5Serializer<'a, N> {
                     self.fullname_serializer.pop(true);
                 }
                 self.fullname_serializer
-                    .pop(self.xot.has_namespace_declarations(node));
+                    .pop(!self.scoped_declarations(node, element.name()).is_empty());
                 r
             }
             Prefix(prefix_id, namespace_id) => {
